@@ -18,7 +18,7 @@ pub fn run(w: &mut World, kind: &str, last: &Op) {
         "foreign" => foreign(w),
         "recaps" => recaps(w, last),
         "headers" => headers(w),
-        "pke" => {}
+        "pke" | "tenant" => {}
         _ => crate::common::machinery(&format!("unknown probe {kind}")),
     }
 }
